@@ -122,6 +122,8 @@ def run(ctx):  # noqa: C901
         d = sk.dangling()
         ctx.ob("R-SDP", cb, "S1 every constraint reaches the problem", not d, "ok" if not d else "dropped")
     r_effect_free(ctx, cb, ["phi"])
+    r_effect_free(ctx, dd, ["choi_1", "choi_2"])
+    r_effect_free(ctx, cs, ["phi"])
 
     # ---- channel fidelity -----------------------------------------------------------------------------------
     Nc = Normalizer(m, cf, inline=False)
